@@ -24,9 +24,9 @@ RULE = ("programs = every statement template of the grammar in mc/gen/fprog.py "
         "supports (main program with literal/named bounds, module subroutine with "
         "assumed-shape dummies, the same with lower-bounded assumed-shape dummies), "
         "core containers x core templates nested, core x core sequences (thorough: + "
-        "every container x every template, every pair with a core member, triples "
-        "over the mini core); each program enumerates the full product of the input "
-        "domains it uses (iv 0..2 data variant, n 0..3, isel -1..4, l F/T, ch a/b/c); "
+        "mini-core containers x every template, every pair with a probe member in "
+        "both orders, triples and nested+one over the mini core); each program "
+        "enumerates the full product of the input domains it uses (iv 0..2 data variant, n 0..3, isel -1..4, l F/T, ch a/b/c); "
         "a program is non-trivial when PSyclone produced text for it and both "
         "versions were executed; distinct = distinct program key")
 ASSUMPTIONS = [
@@ -42,7 +42,7 @@ ASSUMPTIONS = [
     "NotImplementedError, fparser syntax errors) are counted, not failed",
 ]
 
-BLOCK = 16
+BLOCK = 24
 
 
 def bounds(tier):
@@ -59,8 +59,13 @@ def bounds(tier):
 
 
 def cases(tier):
+    # development aid only (mutant runs): VERIF_C01_CLASSES=s1,n2core restricts
+    # the enumeration to the named size classes; registered runs never set it
+    only = [c for c in os.environ.get("VERIF_C01_CLASSES", "").split(",") if c]
     by_cls = {}
     for cls, spec in fprog.statement_specs(tier):
+        if only and cls not in only:
+            continue
         by_cls.setdefault(cls, []).append(fprog.prog_key(spec))
     for cls, keys in by_cls.items():
         for start in range(0, len(keys), BLOCK):
